@@ -51,6 +51,11 @@ def rule_a(model, rep):
     rep.check("[self.get_record(scheme, category) for scheme in self.schemes]" in t, R, site(CTX, "_CryptConfig._get_record_list"),
               "[self.get_record(scheme, category) for scheme in self.schemes]", "the record list follows the configured scheme order, resolved for the category",
               witness="identification order differs from the configured scheme order")
+    reorder = [ast.unparse(n)[:60] for n in walk_no_nested(fn) if isinstance(n, ast.Call) and (
+        (isinstance(n.func, ast.Attribute) and n.func.attr in ("sort", "reverse", "insert", "remove", "pop", "append", "extend")) or
+        (isinstance(n.func, ast.Name) and n.func.id in ("sorted", "reversed")))]
+    rep.check(not reorder, R, site(CTX, "_CryptConfig._get_record_list") + " order", "; ".join(reorder) or "no reordering call", "the list is used as built: nothing sorts, reverses or edits it afterwards",
+              witness="CryptContext(['lmhash', 'nthash'], default='nthash').identify(<lmhash hash>) answers 'nthash': the default scheme is probed before the first configured scheme that claims the hash")
     fn = model.func(CTX, "_CryptConfig._init_scheme_list")
     t = qtext(fn)
     rep.check("handlers.append(handler)\n        schemes.append(scheme)" in t and "self.schemes = tuple(schemes)" in t, R, site(CTX, "_CryptConfig._init_scheme_list"),
